@@ -143,6 +143,7 @@ type variant struct {
 }
 
 func run(c *vf.Ctx) {
+	c.RaceCompanion("one AEAD object", "golang.org/x/crypto/chacha20poly1305.", "golang.org/x/crypto/chacha20.", "golang.org/x/crypto/internal/poly1305.")
 	pls, als := ptLens(c.Thorough), adLens()
 	eals, epls := extAdLens(), extPtLens()
 	c.Rule(fmt.Sprintf("full grid path{asm(AVX2),generic} x {New,NewX} x %d plaintext lengths (every 0..%d, every k*64-1/k*64/k*64+1 to 8192, k*16-1/k*16/k*16+1 to 2048, k*256+{0,1,12..17,31..33} for k*256 in {256..2048,4096,8192,65536}, 65535..65537, 70001) x "+
